@@ -26,8 +26,10 @@
                  'segx_ok: >= 1 element / repetition / component (exactly one where the delimiter is '
                  'absent); segment name non-empty; without a release character no data byte equals the first '
                  'byte of a delimiter; a CR before the delimiter and blank lines only where the CR/LF rules '
-                 'eat them (LF resp. CR/LF-only segment delimiter); with LF as segment delimiter the encoded '
-                 'segment does not end with CR; with a CR/LF-only segment delimiter the name has a non-CR/LF '
+                 'eat them (LF resp. CR/LF-only segment delimiter); with LF as segment delimiter the last '
+                 'value does not end with CR and, if it is empty, the delimiter standing before it does not '
+                 '(no_cr_end, a condition on the logical values; edi_roundtrip_enc keeps the more general '
+                 'condition on the encoding); with a CR/LF-only segment delimiter the name has a non-CR/LF '
                  'byte',
                  'the input (after ignore_crlf stripping, if configured) is edi_encode of the segments, '
                  'hence ends with a segment delimiter (what follows the last one is dropped: DESIGN section '
